@@ -8,6 +8,7 @@ import subprocess
 ROOT = os.path.dirname(os.path.dirname(os.path.abspath(__file__)))
 # subject prefix of the fix: commit -> (properties, what failed before the repair, how the checks showed it)
 FIXED = {
+    'fix: an empty first fragment in the WAL is damage': (['C10'], 'a zero-length FIRST record with a valid checksum made Reader.ReadEntry panic (index out of range) while opening', 'harness process died inside kevo code while C09 replayed a seeded writer bug (c09-large-batch-drops-buffered); treated as an observation (KevoPanic)'),
     'fix: let the replica applier accept the entries of a batch, ': (['C13', 'C14'], 'entries of a transaction share one sequence number; the applier applied the first one, raised "gap within batch" and stayed stuck with half a transaction visible', 'C13 component replay: "message must be accepted: gap within batch 2 -> 2 applied=2"'),
     'fix: keep replication attached to the WAL across rotations': (['C14'], 'the primary observed and polled the WAL object alive at start; after the first flush nothing reached the replicas', 'C14 system scenario flush-between: noconv after 20 s'),
     'fix: agree on the meaning of start_sequence between replica ': (['C14'], 'replica and primary disagreed on start_sequence (inclusive vs exclusive): the entry numbered start_sequence was neither pushed nor polled; a single write after the replica had caught up never arrived', 'C14 system scenario single-after-idle: noconv'),
